@@ -40,6 +40,7 @@ type Case struct {
 	Code     int    `json:"code,omitempty"`
 	E2E      bool   `json:"end_to_end"` // through Client.Login / GetServiceTicket over loopback sockets
 	Seed     uint64 `json:"seed"`
+	NameType int    `json:"name_type,omitempty"`   // name type of the client principal in credentials and requests (0 = 1 NT-PRINCIPAL; 10 = NT-ENTERPRISE): a hint that changes no comparison
 	Opts     string `json:"opts,omitempty"`        // libdefaults variant: "" | canonicalize | fwd-prox-renew | clockskew60 | clockskew900
 	UDPBig   bool   `json:"udp_too_big,omitempty"` // end-to-end: UDP is tried first and answers RESPONSE_TOO_BIG, the reply proper comes over TCP
 	Client   string `json:"client,omitempty"`      // the client principal, "" = alice; alice/admin has two components
@@ -128,6 +129,17 @@ var catalogue = []perturb{
 	{"caddr-added-directional", "free", "reject", func(c Case, x *kdc.ReplyCtx, p int64) {
 		l, _ := x.Enc["caddr"].([]any)
 		x.Enc["caddr"] = append(append([]any{}, l...), der.M{"addr-type": int64(3), "address": []byte{0, 0, 0, 1}})
+	}},
+	// the requested addresses with one entry declared as another kind of address (same octets, same count)
+	{"caddr-retyped", "reject", "free", func(c Case, x *kdc.ReplyCtx, p int64) {
+		l, _ := x.Enc["caddr"].([]any)
+		if len(l) == 0 {
+			return
+		}
+		nl := append([]any{}, l...)
+		first := nl[0].(der.M)
+		nl[0] = der.M{"addr-type": int64(3), "address": first["address"]}
+		x.Enc["caddr"] = nl
 	}},
 	{"caddr-removed", "reject", "accept", func(c Case, x *kdc.ReplyCtx, p int64) { delete(x.Enc, "caddr") }},
 	{"caddr-replaced", "reject", "reject", func(c Case, x *kdc.ReplyCtx, p int64) {
@@ -277,6 +289,10 @@ func Effect(c Case) string {
 		if !c.Addrs {
 			return "accept" // nothing to remove
 		}
+	case "caddr-retyped":
+		if !c.Addrs {
+			return "accept" // nothing to re-type
+		}
 	case "caddr-added", "caddr-added-netbios", "caddr-added-ipv6", "caddr-added-directional":
 		if c.Exchange == "TGS" && !c.Addrs {
 			return "reject"
@@ -398,7 +414,8 @@ func Eval(c Case) evid.Verdict {
 		}
 		exp := Effect(c)
 		ctx := fmt.Sprintf("%s exchange, etype %d, %s credentials, salted=%v, addresses=%v, perturbation %q", c.Exchange, c.EType, c.Cred, c.Salted, c.Addrs, c.Perturb)
-		cname := types.PrincipalName{NameType: 1, NameString: mint.Name(c.client())}
+		cname := types.PrincipalName{NameType: int32(max(1, c.NameType)), NameString: mint.Name(c.client())}
+		wd.creds.SetCName(cname)
 		var prevNonce int64 = 424242
 		// AS exchange (always needed: the TGS exchange presents its TGT)
 		asReq, err := messages.NewASReqForTGT("EXAMPLE.COM", wd.cfg, cname)
@@ -695,6 +712,7 @@ func TestProp(t *testing.T) {
 		}
 		c.Client = rapid.SampledFrom([]string{"", "alice/admin"}).Draw(t, "client")
 		c.Opts = rapid.SampledFrom(append([]string{"", ""}, optsList...)).Draw(t, "opts")
+		c.NameType = rapid.SampledFrom([]int{0, 0, 10, 2}).Draw(t, "name-type")
 		c.UDPBig = c.E2E && rapid.IntRange(0, 2).Draw(t, "udpbig") == 0
 		if c.Exchange == "TGS" && rapid.IntRange(0, 9).Draw(t, "referral") == 0 {
 			c.Exchange, c.E2E, c.Addrs, c.Salted, c.Client, c.Opts, c.UDPBig = "TGS-REF", true, false, false, "", "", false
@@ -717,7 +735,15 @@ func TestProp(t *testing.T) {
 							continue
 						}
 						jobs = append(jobs, Case{Exchange: ex, EType: et, Cred: cred, Addrs: addrs, Perturb: p, Seed: r.Seed()*977 + uint64(k), Salted: cred == "password" && k%2 == 0,
-							Client: []string{"", "alice/admin"}[(k/2)%2], Opts: optsList[(k/4)%len(optsList)]})
+							Client: []string{"", "alice/admin"}[(k/2)%2], Opts: optsList[(k/4)%len(optsList)], NameType: []int{0, 10, 0}[(k/3)%3]})
+						if strings.HasPrefix(p, "cname-") || strings.HasPrefix(p, "crealm-") {
+							// the client-identity perturbations under every name type x canonicalize on / off
+							for _, nt := range []int{10, 2} {
+								for _, o := range []string{"", "canonicalize"} {
+									jobs = append(jobs, Case{Exchange: ex, EType: et, Cred: cred, Addrs: addrs, Perturb: p, Seed: r.Seed()*983 + uint64(k), Opts: o, NameType: nt})
+								}
+							}
+						}
 					}
 				}
 			}
